@@ -90,6 +90,9 @@ func c04(run *ev.Run) int {
 		c04WriteFaults(run, rec, key)
 		c04ClientTransport(run, rec, key)
 	})
+	if !run.Replaying() || strings.Contains(run.ReplayKey(), "/after-failed-call/") {
+		c04AfterFailedCall(run)
+	}
 	run.Set("bodies", len(all))
 	return run.Finish("faults.response", "faults.request", "faults.write", "faults.client_transport", "terminated.checked", "unterminated.checked")
 }
@@ -489,4 +492,76 @@ func c04HLimit(k int) []connect.HandlerOption {
 		return []connect.HandlerOption{connect.WithReadMaxBytes(math.MaxInt)}
 	}
 	return nil
+}
+
+// c04AfterFailedCall: "nothing hangs" also holds for the call after the failed
+// one. A client whose transport allows one connection per host (HTTP/1.1, real
+// sockets) makes a streaming call that fails while the response is still
+// arriving - the client's own read limit rejects a message, or the handler ends
+// the stream with an error - closes the stream, and then makes an ordinary
+// unary call: it must return (and, the server being healthy, succeed).
+func c04AfterFailedCall(run *ev.Run) {
+	srv := svc.NewServer()
+	defer srv.Close()
+	for _, protocol := range []string{"connect", "grpcweb", "grpc"} {
+		for _, history := range []string{"client-read-limit", "handler-error-after-messages", "unmarshal-error"} {
+			for rep := 0; rep < run.Pick(2, 10); rep++ {
+				key := fmt.Sprintf("c04/after-failed-call/%s/%s/rep=%d", protocol, history, rep)
+				if !run.Want(key) {
+					continue
+				}
+				tr := &http.Transport{MaxConnsPerHost: 1, MaxIdleConnsPerHost: 1}
+				hc := &http.Client{Transport: tr}
+				opts := svc.ProtoOpts(protocol, "proto")
+				if history == "client-read-limit" {
+					opts = append(opts, connect.WithReadMaxBytes(200))
+				}
+				if history == "unmarshal-error" {
+					opts = svc.ProtoOpts(protocol, "json")
+				}
+				cs := svc.NewClientSet(hc, srv.H1.URL, opts...)
+				steps := []svc.Step{{Op: "recv"}, {Op: "send", Msg: gen.New(1, 10, true)}}
+				switch history {
+				case "client-read-limit":
+					steps = append(steps, svc.Step{Op: "send", Msg: gen.New(2, 3000, false)})
+					for i := 0; i < 40; i++ {
+						steps = append(steps, svc.Step{Op: "send", Msg: gen.New(uint64(3+i), 3000, false)})
+					}
+				case "unmarshal-error":
+					// a string field with invalid UTF-8: encodes (the handler's codec is
+					// lenient), does not decode on the client
+					for i := 0; i < 40; i++ {
+						steps = append(steps, svc.Step{Op: "send", Msg: gen.New(uint64(3+i), 3000, false)})
+					}
+				}
+				prog := &svc.Program{Steps: steps}
+				if history == "handler-error-after-messages" {
+					prog.Return = connect.NewError(connect.CodeResourceExhausted, errors.New("enough"))
+				}
+				call := srv.Reg.New("c04h", prog)
+				var first, second *svc.CLog
+				ok1, _ := watchdog(30*time.Second, func() { first = cs.Do(context.Background(), svc.ServerStream, call.ID, nil, []*gen.Msg{{Id: 1}}) })
+				srv.Reg.Drop(call)
+				if !ok1 {
+					run.Violation(key+"/history-hang", "the failing streaming call itself did not return", nil)
+					tr.CloseIdleConnections()
+					continue
+				}
+				call2 := srv.Reg.New("c04h2", &svc.Program{Steps: []svc.Step{{Op: "recv"}, {Op: "send", Msg: gen.New(9, 10, true)}}})
+				ok2, dump := watchdog(20*time.Second, func() { second = cs.Do(context.Background(), svc.Unary, call2.ID, nil, []*gen.Msg{{Id: 1}}) })
+				srv.Reg.Drop(call2)
+				run.Eval(fmt.Sprintf("after-failed-call|%s|%s", protocol, history))
+				run.Count("faults.after_failed_call", 1)
+				detail := map[string]any{"protocol": protocol, "history": history, "first_call_error": errStr(first.Err), "first_call_messages": len(first.Msgs), "transport": "HTTP/1.1, MaxConnsPerHost=1"}
+				if !ok2 {
+					detail["goroutines"] = trunc(dump, 20000)
+					run.Violation(key+"/hang", "an ordinary unary call after a failed (and closed) streaming call on the same client did not return within 20 s", detail)
+				} else if second.Err != nil {
+					detail["second_call_error"] = errStr(second.Err)
+					run.Violation(key+"/failed", "an ordinary unary call after a failed (and closed) streaming call on the same client failed: "+errStr(second.Err), detail)
+				}
+				tr.CloseIdleConnections()
+			}
+		}
+	}
 }
